@@ -193,7 +193,7 @@ theorem C01_asserted_of_run {D V : Type} [DecidableEq D] {A : Analysis D} {γ : 
         ∀ n p, p < k → (blockIns[p]!).op.pushes = 1 →
           (EvalRun.truthy (valOf (p, 0)) = true → γ (getAsserted A ic (constructAst blockIns) key n p).1 v) ∧
           (EvalRun.truthy (valOf (p, 0)) = false → γ (getAsserted A ic (constructAst blockIns) key n p).2 v) := by
-  obtain ⟨valOf, hout, hev⟩ := EvalRun.eval_realized prog e blockIns pc0 st k hrun
+  obtain ⟨valOf, hout, _, hev⟩ := EvalRun.eval_realized prog e blockIns pc0 st k hrun
   refine ⟨valOf, hout, ?_⟩
   intro ic key v huniv hs n p hp hpush
   exact Asserted.getAsserted_sound L ic key v huniv hs n p 0 _ (hev p hp hpush)
